@@ -308,6 +308,9 @@ impl ColumnParsing {
                                             "dec" => { month = 12; }
                                             _ => { return Value::Null; }
                                         }
+                                    } else {
+                                        // The month group did not take part: no timestamp, as for every other part
+                                        return Value::Null;
                                     }
                                 } else {
                                     return Value::Null;
